@@ -364,9 +364,10 @@ pub fn property() -> Property {
             "numbers are identical or differ by more than 1e-9 relatively (the statement's 'well-separated'); the same value in different spellings is only generated inside the numeral domain the JSON parser reads exactly (<= 15 digits, |exponent| <= 22)".into(),
             "the model value of a numeral is std's correctly rounded parse".into(),
         ],
+        minimise: None,
         subs: vec![
             Sub::Custom(CustomSub { name: "cases", run: fixed_cases, replay: replay_case }),
-            Sub::Bytes(BytesSub { name: "pairs", f: pairs, max_len: 600, quick: Budget { threads: 8, cases: 6000 }, thorough: Budget { threads: 16, cases: 300_000 } }),
+            Sub::Bytes(BytesSub { name: "pairs", f: pairs, max_len: 600, quick: Budget { threads: 8, cases: 6000 }, thorough: Budget { threads: 16, cases: 300_000 }, keep_unreproducible: false }),
         ],
     }
 }
